@@ -12,12 +12,15 @@ package fasthttp
 // made for, so the oracle can tell from the logs alone which connection carried which request.  The oracle runs after
 // the client calls returned, the client's idle connections were closed and all server goroutines were joined.
 //
-// Overlapping calls without a scheduler: the fake network calls back into the harness from the two places where the
-// client calls out to the network with no lock held - the dial hook and net.Conn.Close of a client end.  An op may carry
-// nested ops (In) that are executed re-entrantly, on the calling goroutine, inside the first dial the op makes (Do /
-// DoRedirects) or inside the At-th connection close it makes (CloseIdle).  Nested calls start and finish while the outer
-// call is between two of its own steps, i.e. a LIFO-shaped subset of the interleavings of concurrent callers,
-// deterministic and replayable.  The idle pools are inspected (white box) after every CloseIdle op and after the last op.
+// Overlapping calls without a scheduler: the harness is called back from every place where the client calls out with no
+// lock of its own held - the dial hook, net.Conn.Write / Read / Close of a client end, and Read of a request body stream.
+// An op may carry nested ops (In) that are executed re-entrantly, on the calling goroutine, inside one such call-out of the
+// op (c21Op.Hook / At: its first dial, its k-th connection write, the first connection read after its k-th write, its k-th
+// body-stream read, its k-th connection close).  Nested calls start and finish while the outer call is between two of its
+// own steps - e.g. between AcquireWriter and the last flush of its request -, i.e. a LIFO-shaped subset of the
+// interleavings of concurrent callers, deterministic and replayable.  Network faults are part of the histories: an op may
+// have its k-th connection write (or the first read after it) fail, which breaks the connection.  The idle pools are
+// inspected (white box) after every CloseIdle op and after the last op; the writer/reader pools at every call-out.
 
 import (
 	"bufio"
@@ -57,11 +60,34 @@ type c21Op struct {
 	Via   string      // Do | DoRedirects | CloseIdle (CloseIdleConnections of the client under test; T unused)
 	T     c21Target   // the URL requested
 	Redir []c21Target // DoRedirects: the server redirects to these in turn
-	// In: ops executed re-entrantly while this op is in progress: Do/DoRedirects - inside the dial hook of the first
-	// dial this call makes (before the connection is handed over); CloseIdle - inside the At-th (1-based)
-	// net.Conn.Close this call makes on a client end.  Not executed when the call never gets there.
-	In []c21Op `json:",omitempty"`
-	At int     `json:",omitempty"`
+	// In: ops executed re-entrantly while this op is in progress, inside one call-out of the client to the harness:
+	// Hook "" (default): Do/DoRedirects - inside the dial hook of the first dial this call makes (before the connection is
+	// handed over); CloseIdle - inside the At-th (1-based) net.Conn.Close this call makes on a client end.
+	// Hook "write": inside the At-th net.Conn.Write this call makes on a dialled connection (TLS records included),
+	// before the fake network has taken the bytes; "read": inside the first net.Conn.Read this call makes after its At-th
+	// Write (the call is about to wait for the peer's answer to that write); "body": inside the At-th Read of this
+	// call's request body stream; "close": inside the At-th net.Conn.Close this call makes.
+	// Not executed when the call never gets there.
+	In   []c21Op `json:",omitempty"`
+	At   int     `json:",omitempty"`
+	Hook string  `json:",omitempty"`
+	// Body: "" = GET without body; POST with "small" (fits the write buffer) / "large" (several connection writes) body
+	// bytes, or with a body stream: "stream" (chunked, 2 pieces) / "sized" (Content-Length, 2 pieces).
+	Body string `json:",omitempty"`
+	// Fault: "w<k>": the k-th net.Conn.Write this call makes fails (nothing of it is delivered) and the connection is
+	// broken from then on; "r<k>": the first net.Conn.Read after its k-th Write fails likewise (connection reset).
+	Fault string `json:",omitempty"`
+}
+
+// hookAt: the call-out kind and its 1-based ordinal inside which the nested ops run.
+func (o *c21Op) hookAt() (string, int) {
+	switch {
+	case o.Hook != "":
+		return o.Hook, max(o.At, 1)
+	case o.Via == "CloseIdle":
+		return "close", o.At
+	}
+	return "dial", 1
 }
 
 // c21Flatten numbers the ops of a case in pre-order; the number is the op index used in request tags and results.
@@ -76,24 +102,40 @@ func c21Flatten(ops []c21Op, out []*c21Op) []*c21Op {
 func c21OpsString(sb *strings.Builder, ops []c21Op) {
 	for i := range ops {
 		o := &ops[i]
+		nest := func() {
+			if len(o.In) == 0 {
+				return
+			}
+			hook, at := o.hookAt()
+			switch hook {
+			case "dial":
+				sb.WriteString("{in dial:")
+			case "read":
+				fmt.Fprintf(sb, "{in first read after write #%d:", at)
+			case "body":
+				fmt.Fprintf(sb, "{in body-stream read #%d:", at)
+			default:
+				fmt.Fprintf(sb, "{in %s #%d:", hook, at)
+			}
+			c21OpsString(sb, o.In)
+			sb.WriteString(" }")
+		}
 		if o.Via == "CloseIdle" {
 			sb.WriteString(" CloseIdle")
-			if len(o.In) > 0 {
-				fmt.Fprintf(sb, "{in close #%d:", o.At)
-				c21OpsString(sb, o.In)
-				sb.WriteString(" }")
-			}
+			nest()
 			continue
 		}
 		fmt.Fprintf(sb, " %s%s %s://%s", o.Via, map[bool]string{true: "(" + o.Build + ")"}[o.Build != ""], o.T.Scheme, o.T.hostport())
 		for _, t := range o.Redir {
 			fmt.Fprintf(sb, "=>%s://%s", t.Scheme, t.hostport())
 		}
-		if len(o.In) > 0 {
-			sb.WriteString("{in dial:")
-			c21OpsString(sb, o.In)
-			sb.WriteString(" }")
+		if o.Body != "" {
+			sb.WriteString("[POST " + o.Body + "]")
 		}
+		if o.Fault != "" {
+			sb.WriteString("[fault " + o.Fault + "]")
+		}
+		nest()
 	}
 }
 
@@ -176,20 +218,31 @@ func c21CaseString(cs *c21Case) string {
 // ---------------------------------------------------------------------------------------------------------------
 // in-memory pipe (buffered, no deadlines) and the fake network
 
-type c21Half struct {
-	mu     sync.Mutex
-	cond   *sync.Cond
-	buf    []byte
-	closed bool
+// One mutex and condition variable per connection, shared by its two directions, so that "both ends are waiting for the
+// other" can be decided under one lock.
+type c21Pipe struct {
+	mu   sync.Mutex
+	cond *sync.Cond
 }
 
-func c21NewHalf() *c21Half { h := &c21Half{}; h.cond = sync.NewCond(&h.mu); return h }
+type c21Half struct {
+	p       *c21Pipe
+	buf     []byte
+	closed  bool
+	waiting bool // its reader is blocked in Read
+}
+
+func c21NewPipe() (*c21Half, *c21Half) {
+	p := &c21Pipe{}
+	p.cond = sync.NewCond(&p.mu)
+	return &c21Half{p: p}, &c21Half{p: p}
+}
 
 func (h *c21Half) close() {
-	h.mu.Lock()
+	h.p.mu.Lock()
 	h.closed = true
-	h.cond.Broadcast()
-	h.mu.Unlock()
+	h.p.cond.Broadcast()
+	h.p.mu.Unlock()
 }
 
 type c21End struct {
@@ -200,16 +253,78 @@ type c21End struct {
 	// clientClosed: Close was called on this client end (by the client under test).  Written and read on the
 	// goroutine running the case only (the watchdog's abort does not go through Close).
 	clientClosed bool
+	broken       bool // client end: an injected fault broke the connection (case goroutine only)
+}
+
+// c21NetErr is what the fake network returns for injected faults (timeout=false) and for a stalled read (timeout=true).
+type c21NetErr struct {
+	what    string
+	timeout bool
+}
+
+func (e *c21NetErr) Error() string   { return "c21 fake network: " + e.what }
+func (e *c21NetErr) Timeout() bool   { return e.timeout }
+func (e *c21NetErr) Temporary() bool { return e.timeout }
+
+// event reports a call-out of the client on a client end to the runner (re-entrancy point; nested ops run inside) and
+// returns true when a fault is to be injected into this very call.
+func (e *c21End) event(kind string) bool {
+	return e.isClient && e.net != nil && e.net.onEvent != nil && e.net.onEvent(kind)
+}
+
+func (e *c21End) breakConn() {
+	e.broken = true
+	e.rec.mu.Lock()
+	e.rec.Faults++
+	e.rec.mu.Unlock()
+	e.shut()
+}
+
+// hold/unhold bracket the part of a client-end call in which the case goroutine may block (see c21Runner.hold).
+func (e *c21End) hold() {
+	if e.isClient && e.net != nil && e.net.hold != nil {
+		e.net.hold()
+	}
+}
+
+func (e *c21End) unhold() {
+	if e.isClient && e.net != nil && e.net.unhold != nil {
+		e.net.unhold()
+	}
 }
 
 func (e *c21End) Read(p []byte) (int, error) {
 	if len(p) == 0 {
 		return 0, nil
 	}
-	e.r.mu.Lock()
-	defer e.r.mu.Unlock()
+	if e.isClient {
+		if e.broken {
+			return 0, &c21NetErr{what: "read on broken connection"}
+		}
+		if e.event("read") {
+			e.breakConn()
+			return 0, &c21NetErr{what: "read: connection reset by peer (injected)"}
+		}
+	}
+	e.hold()
+	defer e.unhold()
+	pp := e.r.p
+	pp.mu.Lock()
+	defer pp.mu.Unlock()
 	for len(e.r.buf) == 0 && !e.r.closed {
-		e.r.cond.Wait()
+		if e.isClient && e.w.waiting && len(e.w.buf) == 0 && !e.w.closed {
+			// The peer is itself blocked reading from this connection and everything the client wrote has been consumed:
+			// it still waits for (the rest of) a request.  The case goroutine is the only writer of this connection, so
+			// nothing can ever arrive: the read deadline of a real connection would expire.  Logical, not wall-clock.
+			e.rec.mu.Lock()
+			e.rec.Stalled++
+			e.rec.mu.Unlock()
+			return 0, &c21NetErr{what: "read stalled: the peer still waits for a request on this connection", timeout: true}
+		}
+		e.r.waiting = true
+		pp.cond.Broadcast()
+		pp.cond.Wait()
+		e.r.waiting = false
 	}
 	if len(e.r.buf) == 0 {
 		return 0, io.EOF
@@ -220,8 +335,22 @@ func (e *c21End) Read(p []byte) (int, error) {
 }
 
 func (e *c21End) Write(p []byte) (int, error) {
-	e.w.mu.Lock()
-	defer e.w.mu.Unlock()
+	if e.isClient {
+		if e.broken {
+			return 0, &c21NetErr{what: "write on broken connection"}
+		}
+		// The call-out happens before the bytes are taken: calls nested here run while this Write is in progress and has
+		// not consumed its buffer yet (a write blocked on a full socket buffer).
+		if e.event("write") {
+			e.breakConn()
+			return 0, &c21NetErr{what: "write: broken pipe (injected)"}
+		}
+	}
+	e.hold()
+	defer e.unhold()
+	pp := e.w.p
+	pp.mu.Lock()
+	defer pp.mu.Unlock()
 	if e.w.closed {
 		return 0, io.ErrClosedPipe
 	}
@@ -231,18 +360,18 @@ func (e *c21End) Write(p []byte) (int, error) {
 		e.rec.Raw = append(e.rec.Raw, p...)
 		e.rec.mu.Unlock()
 	}
-	e.w.cond.Broadcast()
+	pp.cond.Broadcast()
 	return len(p), nil
 }
 
 func (e *c21End) Close() error {
 	if e.isClient && !e.clientClosed {
 		e.clientClosed = true
-		if e.net != nil && e.net.onClientClose != nil {
-			e.net.onClientClose() // re-entrancy point: nested ops of a CloseIdle op run here
-		}
+		e.event("close") // re-entrancy point: nested ops of a CloseIdle op (or of a Do op with Hook "close") run here
 	}
+	e.hold()
 	e.shut()
+	e.unhold()
 	return nil
 }
 
@@ -269,7 +398,7 @@ type c21SrvConn struct {
 
 func (c *c21SrvConn) Read(p []byte) (int, error) { return c.br.Read(p) }
 
-type c21ReqRec struct{ Method, Path, Host string }
+type c21ReqRec struct{ Method, Path, Host, Tag, Body string }
 
 type c21ConnRec struct {
 	ID   int
@@ -282,11 +411,28 @@ type c21ConnRec struct {
 	HSErr string
 	Reqs []c21ReqRec
 	CertFor string // host name the peer's certificate is valid for
+	App     []byte // TLS connections: every byte the peer decrypted inside the session
+	Faults  int    // injected faults that broke this connection
+	Stalled int    // client reads that could never be satisfied (see c21End.Read)
+}
+
+// c21AppLog collects the decrypted bytes of a TLS session.
+type c21AppLog struct{ rec *c21ConnRec }
+
+func (a c21AppLog) Write(p []byte) (int, error) {
+	a.rec.mu.Lock()
+	a.rec.App = append(a.rec.App, p...)
+	a.rec.mu.Unlock()
+	return len(p), nil
 }
 
 type c21Net struct {
-	onDial        func() // called by the dial hooks before a connection is made (re-entrancy point)
-	onClientClose func() // called on the first Close of every client end (re-entrancy point)
+	// onEvent is called at every call-out of the client to the fake network on the case goroutine - kind "dial" (dial hook,
+	// before a connection is made), "write" / "read" (net.Conn.Write / Read of a client end), "close" (first Close of a
+	// client end) - and runs the nested ops due there (re-entrancy point); true = inject a fault into this call.
+	onEvent func(kind string) bool
+	hold    func() // see c21Runner.hold
+	unhold  func()
 	refuse    map[string]bool
 	wrongCert map[string]bool
 	refused   int
@@ -305,8 +451,12 @@ func c21HostOf(addr string) string {
 }
 
 func (n *c21Net) dial(addr, hook string) (net.Conn, error) {
-	if n.onDial != nil {
-		n.onDial()
+	if n.onEvent != nil {
+		n.onEvent("dial")
+	}
+	if n.hold != nil {
+		n.hold()
+		defer n.unhold()
 	}
 	if n.refuse[addr] {
 		n.mu.Lock()
@@ -314,7 +464,7 @@ func (n *c21Net) dial(addr, hook string) (net.Conn, error) {
 		n.mu.Unlock()
 		return nil, &net.OpError{Op: "dial", Net: "c21", Err: fmt.Errorf("connection refused by %s", addr)}
 	}
-	a, b := c21NewHalf(), c21NewHalf()
+	a, b := c21NewPipe()
 	n.mu.Lock()
 	rec := &c21ConnRec{ID: len(n.conns) + 1, Addr: addr, Hook: hook, CertFor: c21HostOf(addr)}
 	if n.wrongCert[addr] {
@@ -362,7 +512,7 @@ func (n *c21Net) serve(rec *c21ConnRec, sv *c21End) {
 		rec.SNI = tc.ConnectionState().ServerName
 		rec.mu.Unlock()
 		defer tc.Close()
-		br = bufio.NewReader(tc)
+		br = bufio.NewReader(io.TeeReader(tc, c21AppLog{rec}))
 		w = tc
 	}
 	for {
@@ -370,9 +520,12 @@ func (n *c21Net) serve(rec *c21ConnRec, sv *c21End) {
 		if err != nil {
 			return
 		}
-		io.Copy(io.Discard, hr.Body)
+		body, err := io.ReadAll(hr.Body)
+		if err != nil {
+			return // the request did not arrive completely: not delivered
+		}
 		rec.mu.Lock()
-		rec.Reqs = append(rec.Reqs, c21ReqRec{hr.Method, hr.URL.Path, hr.Host})
+		rec.Reqs = append(rec.Reqs, c21ReqRec{Method: hr.Method, Path: hr.URL.Path, Host: hr.Host, Tag: hr.Header.Get("X-C21-Tag"), Body: string(body)})
 		rec.mu.Unlock()
 		var resp string
 		if strings.HasPrefix(hr.URL.Path, "/r/") {
@@ -435,6 +588,8 @@ type c21Counters struct {
 	reuses, bothSchemesSameAddr, hsFailed, dialHook, dialTimeoutHook, mapEntries                            int64
 	failoverOK, failoverErr, wrongCertConns, wrongCertRejected, refusedDials                                int64
 	nestedRun, closeIdle, closeFired, poolEntries, leftOpen, blocked                                        int64
+	inDial, inWrite, inRead, inBody, inClose, writeFaults, readFaults, faultOpsOK, faultOpsErr, bodiesChecked int64
+	markers, pooledSeen, overlapInWritePhase                                                                int64
 }
 
 var c21MaxIdle atomic.Int64 // largest idle pool seen by the white-box inspection
@@ -454,6 +609,13 @@ func (c *c21Counters) flush(r *vrt.R) {
 		"c21_closeidle_ops_with_calls_completing_inside_a_close": c.closeFired, "c21_idle_pool_entries_inspected": c.poolEntries,
 		"c21_conns_not_closed_by_client_at_end": c.leftOpen,
 		"c21_nested_ops_not_started_because_they_would_wait_for_Client_mLock": c.blocked,
+		"c21_nested_op_groups_run_inside_a_dial": c.inDial, "c21_nested_op_groups_run_inside_a_conn_write": c.inWrite,
+		"c21_nested_op_groups_run_inside_a_conn_read": c.inRead, "c21_nested_op_groups_run_inside_a_body_stream_read": c.inBody,
+		"c21_nested_op_groups_run_inside_a_conn_close": c.inClose, "c21_write_faults_injected": c.writeFaults, "c21_read_faults_injected": c.readFaults,
+		"c21_faulted_calls_succeeded_after_retry": c.faultOpsOK, "c21_faulted_calls_failed": c.faultOpsErr,
+		"c21_delivered_request_bodies_compared": c.bodiesChecked, "c21_request_markers_attributed_to_connections": c.markers,
+		"c21_pooled_writers_readers_inspected": c.pooledSeen,
+		"c21_cases_with_calls_nested_between_AcquireWriter_and_last_flush_after_a_write_fault": c.overlapInWritePhase,
 		"c21_dials_via_Dial": c.dialHook, "c21_dials_via_DialTimeout": c.dialTimeoutHook, "c21_client_map_entries_checked": c.mapEntries,
 	} {
 		if v != 0 {
@@ -468,15 +630,22 @@ type c21OpResult struct {
 	status   int
 	body     string
 	executed bool   // false: the op was never started (its parent never reached the hook, or the case was stopped)
+	faulted  string // non-empty: the op's fault was injected ("write" / "read")
 	panicked string // non-empty: the client call panicked
 }
 
 type c21PoolViol struct{ sig, what string }
 
 type c21Frame struct {
-	op     *c21Op
-	fired  bool
-	closes int
+	idx       int
+	op        *c21Op
+	fired     bool
+	faulted   bool
+	dials     int
+	writes    int
+	closes    int
+	bodyReads int
+	readSeen  bool // a conn Read was seen since the last conn Write
 }
 
 type c21Doer interface {
@@ -509,6 +678,11 @@ type c21Runner struct {
 	closeFired  int64
 	maxIdle     int
 	blocked     int64
+	hookFired   map[string]int64
+	pools       []*c21BufPool
+	held        [][]any
+	holdDepth   int
+	pooledSeen  int64
 }
 
 func (rn *c21Runner) top() *c21Frame {
@@ -518,27 +692,146 @@ func (rn *c21Runner) top() *c21Frame {
 	return rn.stack[len(rn.stack)-1]
 }
 
-func (rn *c21Runner) onDial() {
+// event: the client called out to the harness (kind dial | write | read | close | body) while the op on top of the stack is
+// in progress.  Runs the nested ops due at this call-out and tells whether the op's fault is due in this very call.
+func (rn *c21Runner) event(kind string) (fault bool) {
 	f := rn.top()
-	if f == nil || f.op.Via == "CloseIdle" || f.fired || len(f.op.In) == 0 {
-		return
+	if f == nil {
+		return false
 	}
-	f.fired = true
-	rn.execAll(f.op.In, true)
+	k := 0
+	switch kind {
+	case "dial":
+		f.dials++
+		k = f.dials
+	case "write":
+		f.writes++
+		f.readSeen = false
+		k = f.writes
+	case "read":
+		if f.readSeen || f.writes == 0 {
+			return false // only the first Read after a Write is a numbered call-out (later ones depend on how the peer's bytes are cut)
+		}
+		f.readSeen = true
+		k = f.writes
+	case "close":
+		f.closes++
+		k = f.closes
+	case "body":
+		f.bodyReads++
+		k = f.bodyReads
+	}
+	if hook, at := f.op.hookAt(); !f.fired && len(f.op.In) > 0 && kind == hook && k == at {
+		f.fired = true
+		if f.op.Via == "CloseIdle" {
+			rn.closeFired++
+		}
+		rn.hookFired[kind]++
+		rn.execAll(f.op.In, true)
+	}
+	if !f.faulted && f.op.Fault != "" && (kind == "write" || kind == "read") && f.op.Fault == fmt.Sprintf("%c%d", kind[0], k) {
+		f.faulted = true
+		rn.res[f.idx].faulted = kind
+		return true
+	}
+	return false
 }
 
-func (rn *c21Runner) onClientClose() {
-	f := rn.top()
-	if f == nil || f.op.Via != "CloseIdle" {
+// hold / unhold bracket every stretch in which the case goroutine may block inside the fake network (pipe mutex, waiting
+// for the peer).  sync.Pool is sharded per P and a goroutine that blocks may continue on another P, where Get does not
+// see what it Put before: which writer/reader a request gets from the Client's (HostClient's) pool would then depend on
+// the Go scheduler.  hold takes everything out of these pools, unhold puts it back (on the P the goroutine now runs on),
+// so between two call-outs Get returns a pooled object whenever there is one - one of the behaviours sync.Pool allows,
+// chosen the same way in every run.  While the objects are out, they are inspected (white box): a pool must not hold the
+// same object twice.
+func (rn *c21Runner) hold() {
+	rn.holdDepth++
+	if rn.holdDepth > 1 {
 		return
 	}
-	f.closes++
-	if f.fired || len(f.op.In) == 0 || f.closes != f.op.At {
+	for i, p := range rn.pools {
+		seen := map[any]bool{}
+		for len(rn.held[i]) < 256 {
+			v := p.pool.Get()
+			if v == nil {
+				break
+			}
+			rn.held[i] = append(rn.held[i], v)
+			if seen[v] && !p.reported {
+				p.reported = true
+				rn.pool = append(rn.pool, c21PoolViol{p.kind + "-pool-holds-one-" + p.kind + "-twice:" + strings.ToLower(rn.cs.Client),
+					fmt.Sprintf("during op %d: the %s pool of %s holds the same %T twice: two requests in progress at the same time get the same buffer (AcquireWriter re-points it to the second request's connection while the first is still using it)", rn.curOp(), p.kind, p.owner, v)})
+			}
+			seen[v] = true
+		}
+		rn.pooledSeen += int64(len(rn.held[i]))
+	}
+}
+
+func (rn *c21Runner) unhold() {
+	rn.holdDepth--
+	if rn.holdDepth > 0 {
 		return
 	}
-	f.fired = true
-	rn.closeFired++
-	rn.execAll(f.op.In, true)
+	for i, p := range rn.pools {
+		for _, v := range rn.held[i] {
+			p.pool.Put(v)
+		}
+		rn.held[i] = rn.held[i][:0]
+	}
+}
+
+func (rn *c21Runner) curOp() int {
+	if f := rn.top(); f != nil {
+		return f.idx
+	}
+	return -1
+}
+
+type c21BufPool struct {
+	pool     *sync.Pool
+	kind     string // writer | reader
+	owner    string
+	reported bool
+}
+
+func (rn *c21Runner) addPools(owner string, w, r *sync.Pool) {
+	rn.pools = append(rn.pools, &c21BufPool{pool: w, kind: "writer", owner: owner}, &c21BufPool{pool: r, kind: "reader", owner: owner})
+	rn.held = append(rn.held, nil, nil)
+}
+
+// c21BodyStream is a request body stream: every Read is a call-out of the client (kind "body").
+type c21BodyStream struct {
+	rn     *c21Runner
+	pieces []string
+}
+
+func (b *c21BodyStream) Read(p []byte) (int, error) {
+	b.rn.event("body")
+	if len(b.pieces) == 0 {
+		return 0, io.EOF
+	}
+	n := copy(p, b.pieces[0])
+	if n < len(b.pieces[0]) {
+		b.pieces[0] = b.pieces[0][n:]
+	} else {
+		b.pieces = b.pieces[1:]
+	}
+	return n, nil
+}
+
+// c21BodyPieces: what a request with the given body kind carries: every piece is made of "body=<tag>;" markers.
+func c21BodyPieces(tag, kind string) []string {
+	m := "body=" + tag + ";"
+	switch kind {
+	case "small":
+		return []string{strings.Repeat(m, 3)}
+	case "large":
+		return []string{strings.Repeat(m, 6000/len(m)+1)}
+	case "stream", "sized":
+		return []string{strings.Repeat(m, 3), strings.Repeat(m, 2)}
+	}
+	return nil
 }
 
 func (rn *c21Runner) execAll(ops []c21Op, nested bool) {
@@ -592,7 +885,7 @@ func (rn *c21Runner) exec(op *c21Op) {
 		return
 	}
 	rn.res[i].executed = true
-	rn.stack = append(rn.stack, &c21Frame{op: op})
+	rn.stack = append(rn.stack, &c21Frame{idx: i, op: op})
 	depth := len(rn.stack)
 	defer func() {
 		rn.stack = rn.stack[:depth-1]
@@ -611,7 +904,7 @@ func (rn *c21Runner) exec(op *c21Op) {
 		rn.poolCheck(fmt.Sprintf("after op %d (CloseIdleConnections) returned", i))
 		return
 	}
-	u, _ := op.urls(i)
+	u, tags := op.urls(i)
 	req, resp := AcquireRequest(), AcquireResponse()
 	if op.Build == "host+scheme" {
 		pu, e := url.Parse(u)
@@ -624,6 +917,26 @@ func (rn *c21Runner) exec(op *c21Op) {
 		req.URI().SetScheme(pu.Scheme)
 	} else {
 		req.SetRequestURI(u)
+	}
+	if op.Via == "Do" {
+		req.Header.Set("X-C21-Tag", "hdr="+tags[0])
+	}
+	switch op.Body {
+	case "":
+	case "small", "large":
+		req.Header.SetMethod(MethodPost)
+		req.SetBodyRaw([]byte(c21BodyPieces(tags[0], op.Body)[0]))
+	case "stream", "sized":
+		req.Header.SetMethod(MethodPost)
+		bs := &c21BodyStream{rn: rn, pieces: c21BodyPieces(tags[0], op.Body)}
+		size := -1
+		if op.Body == "sized" {
+			size = len(strings.Join(bs.pieces, ""))
+		}
+		req.SetBodyStream(bs, size)
+	default:
+		rn.bad = "unknown body kind " + op.Body
+		return
 	}
 	var err error
 	switch op.Via {
@@ -743,7 +1056,7 @@ func (rn *c21Runner) poolCheck(when string) {
 }
 
 func c21Exec(cs *c21Case, n *c21Net) *c21Runner {
-	rn := &c21Runner{cs: cs, n: n, idx: map[*c21Op]int{}}
+	rn := &c21Runner{cs: cs, n: n, idx: map[*c21Op]int{}, hookFired: map[string]int64{}}
 	rn.flat = c21Flatten(cs.Ops, nil)
 	for i, o := range rn.flat {
 		rn.idx[o] = i
@@ -765,9 +1078,12 @@ func c21Exec(cs *c21Case, n *c21Net) *c21Runner {
 	case "Client":
 		rn.cl = &Client{Dial: dial, DialTimeout: dialT, TLSConfig: tcfg, MaxIdleConnDuration: time.Minute}
 		rn.d = rn.cl
+		rn.addPools("the Client (shared by all its host clients, http and https)", &rn.cl.writerPool, &rn.cl.readerPool)
 	case "HostClient", "LBClient":
 		for _, u := range cs.Upstreams {
-			rn.hcs = append(rn.hcs, &HostClient{Addr: u.Addr, IsTLS: u.IsTLS, Dial: dial, DialTimeout: dialT, TLSConfig: tcfg, MaxIdleConnDuration: time.Minute})
+			hc := &HostClient{Addr: u.Addr, IsTLS: u.IsTLS, Dial: dial, DialTimeout: dialT, TLSConfig: tcfg, MaxIdleConnDuration: time.Minute}
+			rn.hcs = append(rn.hcs, hc)
+			rn.addPools(fmt.Sprintf("HostClient{Addr:%q IsTLS:%v}", u.Addr, u.IsTLS), &hc.writerPool, &hc.readerPool)
 		}
 		if cs.Client == "HostClient" {
 			if len(rn.hcs) != 1 {
@@ -786,7 +1102,7 @@ func c21Exec(cs *c21Case, n *c21Net) *c21Runner {
 		rn.bad = "unknown client kind " + cs.Client
 		return rn
 	}
-	n.onDial, n.onClientClose = rn.onDial, rn.onClientClose
+	n.onEvent, n.hold, n.unhold = rn.event, rn.hold, rn.unhold
 	rn.execAll(cs.Ops, false)
 	if rn.bad != "" {
 		return rn
@@ -824,6 +1140,35 @@ func c21ErrClass(err error) string {
 // c21ClearHTTPS matches the request line of a request made for an https URL (the tag of a redirect *target* inside a
 // ?to= query is percent-encoded differently and does not match).
 var c21ClearHTTPS = regexp.MustCompile(`[A-Z]+ /[tr]/[0-9]+-[0-9]+-https-`)
+
+// c21Marker matches the three places where a request names the URL it was made for: its request line, its X-C21-Tag
+// header ("hdr=<tag>", Do ops only) and every piece of its body ("body=<tag>;").  Groups: 1 = "hdr"/"body" or empty for
+// the request line, 2 = tag, 3 = scheme, 4 = host, 5 = port.
+var c21Marker = regexp.MustCompile(`(?:[A-Z]+ /[tr]/|(hdr|body)=)([0-9]+-[0-9]+-(https?)-(host[ab])-(none|[0-9]+))[;\r ?]`)
+
+type c21Mark struct {
+	part string // request-line | header | body
+	tag  string
+	t    c21Target
+}
+
+// c21Marks returns the distinct (part, tag) markers in a clear-text byte stream.
+func c21Marks(b []byte) []c21Mark {
+	var out []c21Mark
+	seen := map[string]bool{}
+	for _, m := range c21Marker.FindAllSubmatch(b, -1) {
+		part := map[string]string{"": "request-line", "hdr": "header", "body": "body"}[string(m[1])]
+		if k := part + " " + string(m[2]); !seen[k] {
+			seen[k] = true
+			t := c21Target{Scheme: string(m[3]), Host: string(m[4]), Port: string(m[5])}
+			if t.Port == "none" {
+				t.Port = ""
+			}
+			out = append(out, c21Mark{part, string(m[2]), t})
+		}
+	}
+	return out
+}
 
 func c21Run(r *vrt.R, cs *c21Case, ct *c21Counters, sample bool) {
 	n := &c21Net{refuse: map[string]bool{}, wrongCert: map[string]bool{}}
@@ -865,6 +1210,12 @@ func c21Run(r *vrt.R, cs *c21Case, ct *c21Counters, sample bool) {
 	ct.blocked += rn.blocked
 	ct.closeFired += rn.closeFired
 	ct.poolEntries += rn.poolEntries
+	ct.pooledSeen += rn.pooledSeen
+	ct.inDial += rn.hookFired["dial"]
+	ct.inWrite += rn.hookFired["write"]
+	ct.inRead += rn.hookFired["read"]
+	ct.inBody += rn.hookFired["body"]
+	ct.inClose += rn.hookFired["close"]
 	for m := int64(rn.maxIdle); ; {
 		old := c21MaxIdle.Load()
 		if m <= old || c21MaxIdle.CompareAndSwap(old, m) {
@@ -892,7 +1243,10 @@ func c21Run(r *vrt.R, cs *c21Case, ct *c21Counters, sample bool) {
 		t       c21Target
 		refused bool // must not be written anywhere
 		skipped bool // the op was never started
+		faulted bool // a fault was injected into the op: it may fail, or be retried and arrive more than once
 	}
+	bodyOf := map[string]string{} // tag -> body the request was given
+	anyWriteFault, writePhaseOverlap := false, false
 	var exps []hopExp
 	anyRefusal := false
 	mixed := map[string]int{}
@@ -909,9 +1263,29 @@ func c21Run(r *vrt.R, cs *c21Case, ct *c21Counters, sample bool) {
 		if !rs.executed || rs.panicked != "" || (rn.stop && rs.err != nil) {
 			// never started (hook not reached / case stopped after a corrupted pool entry was found), or cut short
 			for h, t := range all {
-				exps = append(exps, hopExp{tags[h], t, false, true})
+				exps = append(exps, hopExp{tags[h], t, false, true, false})
 			}
 			continue
+		}
+		for h, tg := range tags {
+			bodyOf[tg] = ""
+			if h == 0 {
+				bodyOf[tg] = strings.Join(c21BodyPieces(tg, op.Body), "")
+			}
+		}
+		switch rs.faulted {
+		case "write":
+			ct.writeFaults++
+			anyWriteFault = true
+		case "read":
+			ct.readFaults++
+		}
+		if hook, _ := op.hookAt(); anyWriteFault && rs.faulted == "" && len(op.In) > 0 && (hook == "write" || hook == "body") {
+			for j := i + 1; j < len(flat) && j <= i+len(c21Flatten(op.In, nil)); j++ {
+				if res[j].executed {
+					writePhaseOverlap = true
+				}
+			}
 		}
 		refusedFrom := -1
 		for h, t := range all {
@@ -921,7 +1295,7 @@ func c21Run(r *vrt.R, cs *c21Case, ct *c21Counters, sample bool) {
 			if cs.Client == "HostClient" && refusedFrom < 0 && t.https() != cs.Upstreams[0].IsTLS {
 				refusedFrom = h
 			}
-			exps = append(exps, hopExp{tags[h], t, refusedFrom >= 0, false})
+			exps = append(exps, hopExp{tags[h], t, refusedFrom >= 0, false, rs.faulted != ""})
 			if t.https() {
 				mixed[t.wantAddr()] |= 2
 			} else {
@@ -930,7 +1304,16 @@ func c21Run(r *vrt.R, cs *c21Case, ct *c21Counters, sample bool) {
 		}
 		switch cs.Client {
 		case "Client":
-			if rs.err != nil {
+			if rs.faulted != "" {
+				// the network failed this call: it may fail (it does unless the request is idempotent and retried)
+				if rs.err != nil {
+					ct.faultOpsErr++
+				} else if want := "tag=" + tags[len(tags)-1]; rs.status != 200 || rs.body != want {
+					viol("client-got-other-response", fmt.Sprintf("op %d: status %d body %q, want 200 %q", i, rs.status, rs.body, want))
+				} else {
+					ct.faultOpsOK++
+				}
+			} else if rs.err != nil {
 				viol("client-call-failed:"+c21ErrClass(rs.err), fmt.Sprintf("op %d through Client failed on a network that always answers: %v", i, rs.err))
 			} else if want := "tag=" + tags[len(tags)-1]; rs.status != 200 || rs.body != want {
 				viol("client-got-other-response", fmt.Sprintf("op %d: status %d body %q, want 200 %q", i, rs.status, rs.body, want))
@@ -947,7 +1330,7 @@ func c21Run(r *vrt.R, cs *c21Case, ct *c21Counters, sample bool) {
 					viol(fmt.Sprintf("hostclient-tls-%v-did-not-refuse-%s-%s:%s", cs.Upstreams[0].IsTLS, strings.ToLower(all[refusedFrom].Scheme), how, c21ErrClass(rs.err)),
 						fmt.Sprintf("op %d: HostClient{IsTLS:%v} got a %s URL (%s), error is %v", i, cs.Upstreams[0].IsTLS, all[refusedFrom].Scheme, how, rs.err))
 				}
-			} else if rs.err != nil && !faulty {
+			} else if rs.err != nil && !faulty && rs.faulted == "" {
 				viol("hostclient-call-failed:"+c21ErrClass(rs.err), fmt.Sprintf("op %d with matching scheme failed: %v", i, rs.err))
 			} else if rs.err == nil && faulty {
 				ct.failoverOK++
@@ -957,7 +1340,7 @@ func c21Run(r *vrt.R, cs *c21Case, ct *c21Counters, sample bool) {
 		case "LBClient":
 			if rs.err == ErrHostClientRedirectToDifferentScheme {
 				ct.lbRefusals++
-			} else if rs.err != nil {
+			} else if rs.err != nil && rs.faulted == "" {
 				viol("lbclient-call-failed:"+c21ErrClass(rs.err), fmt.Sprintf("op %d failed: %v", i, rs.err))
 			}
 		}
@@ -1004,6 +1387,30 @@ func c21Run(r *vrt.R, cs *c21Case, ct *c21Counters, sample bool) {
 		if c.TLS && (len(c.Raw) == 0 || c.Raw[0] != 0x16 || bytes.Contains(c.Raw, []byte("HTTP/1.1"))) {
 			viol("tls-conn-with-cleartext-http", fmt.Sprintf("conn %d to %s: raw bytes %q", c.ID, c.Addr, c21Clip(c.Raw)))
 		}
+		// Every piece of every request (request line, header, body pieces) names its URL: whatever shows up in the bytes of
+		// a connection - in clear on the wire, or decrypted inside its TLS session - must have been made for this very
+		// connection's scheme (and, through Client, address).
+		for _, m := range c21Marks(c.Raw) {
+			ct.markers++
+			if m.t.https() && m.part != "request-line" { // (the request line is judged above, keeping its class name)
+				viol("https-request-"+m.part+"-in-clear-on-wire:"+strings.ToLower(cs.Client), fmt.Sprintf("conn %d to %s (tls session=%v) carries the %s of https request %s in clear: %q", c.ID, c.Addr, c.TLS, m.part, m.tag, c21Around(c.Raw, m.tag)))
+			} else if isClient && !m.t.https() && c.Addr != m.t.wantAddr() {
+				viol("http-request-"+m.part+"-on-conn-to-other-address", fmt.Sprintf("conn %d dialled as %s carries the %s of request %s (for %s): %q", c.ID, c.Addr, m.part, m.tag, m.t.wantAddr(), c21Around(c.Raw, m.tag)))
+			}
+		}
+		for _, m := range c21Marks(c.App) {
+			ct.markers++
+			if !m.t.https() {
+				viol("http-request-"+m.part+"-inside-tls-session:"+strings.ToLower(cs.Client), fmt.Sprintf("the %s of http request %s was written into the TLS session of conn %d to %s: %q", m.part, m.tag, c.ID, c.Addr, c21Around(c.App, m.tag)))
+			} else if isClient && (c.Addr != m.t.wantAddr() || c.SNI != m.t.Host) {
+				viol("https-request-"+m.part+"-in-tls-session-for-other-address", fmt.Sprintf("the %s of request %s (for %s) was written into the TLS session of conn %d to %s, SNI %q", m.part, m.tag, m.t.wantAddr(), c.ID, c.Addr, c.SNI))
+			}
+		}
+		if c.Stalled > 0 {
+			kind := map[bool]string{false: "plaintext", true: "tls"}[len(c.Raw) > 0 && c.Raw[0] == 0x16]
+			viol("client-awaits-response-on-conn-whose-peer-still-awaits-the-request:"+kind+":"+strings.ToLower(cs.Client),
+				fmt.Sprintf("conn %d to %s: the client waited for a response although the peer had not received a complete request on this connection (%d bytes written to it in all; a real connection would sit there until the read deadline): (part of) the request was not written to its own connection", c.ID, c.Addr, len(c.Raw)))
+		}
 		// every TLS session is for the host actually dialled
 		if c.TLS && c.SNI != c21HostOf(c.Addr) {
 			viol("tls-sni-differs-from-dialled-host:"+strings.ToLower(cs.Client), fmt.Sprintf("conn %d dialled as %s has a TLS session with SNI %q", c.ID, c.Addr, c.SNI))
@@ -1025,6 +1432,15 @@ func c21Run(r *vrt.R, cs *c21Case, ct *c21Counters, sample bool) {
 			}
 			tag := q.Path[3:]
 			delivered[tag]++
+			if want, ok := bodyOf[tag]; ok {
+				ct.bodiesChecked++
+				if q.Body != want {
+					viol("request-delivered-with-other-body-than-given:"+parts[2], fmt.Sprintf("request %s arrived on conn %d to %s with a body of %d bytes %q, it was given %d bytes %q: part of it was not written to (or foreign bytes were written to) its connection", tag, c.ID, c.Addr, len(q.Body), c21Clip([]byte(q.Body)), len(want), c21Clip([]byte(want))))
+				}
+				if q.Tag != "" && q.Tag != "hdr="+tag {
+					viol("request-delivered-with-header-of-other-request:"+parts[2], fmt.Sprintf("request %s arrived on conn %d with X-C21-Tag %q", tag, c.ID, q.Tag))
+				}
+			}
 			t := c21Target{Scheme: parts[2], Host: parts[3], Port: parts[4]}
 			if t.Port == "none" {
 				t.Port = ""
@@ -1063,6 +1479,8 @@ func c21Run(r *vrt.R, cs *c21Case, ct *c21Counters, sample bool) {
 			}
 		case e.refused && delivered[e.tag] > 0:
 			viol(fmt.Sprintf("hostclient-tls-%v-wrote-%s-request", cs.Upstreams[0].IsTLS, strings.ToLower(e.t.Scheme)), "request "+e.tag+" had to be refused but was written")
+		case isClient && e.faulted:
+			// no expectation on how often it arrives
 		case isClient && delivered[e.tag] != 1:
 			viol("client-request-not-delivered-once", fmt.Sprintf("request %s delivered %d times", e.tag, delivered[e.tag]))
 		}
@@ -1085,12 +1503,24 @@ func c21Run(r *vrt.R, cs *c21Case, ct *c21Counters, sample bool) {
 		}
 		cl.mLock.RUnlock()
 	}
+	if writePhaseOverlap {
+		ct.overlapInWritePhase++
+	}
 	if (sawTLS && sawPlain) || anyRefusal || (faulty && (n.refused > 0 || sawTLS)) || rn.nestedRun > 0 {
 		r.Nontrivial(c21CaseString(cs))
 	}
 	if sample && r.WantSample() {
 		r.Sample(map[string]any{"case": c21CaseString(cs), "observed": c21Summary(n, res)})
 	}
+}
+
+// c21Around returns the surroundings of the first occurrence of tag in b.
+func c21Around(b []byte, tag string) []byte {
+	i := bytes.Index(b, []byte(tag))
+	if i < 0 {
+		return c21Clip(b)
+	}
+	return b[max(0, i-60):min(len(b), i+len(tag)+40)]
 }
 
 func c21Clip(b []byte) []byte {
@@ -1373,6 +1803,146 @@ func c21Spaces(r *vrt.R) []c21Space {
 			}
 		}})
 	sp = append(sp, c21OverlapSpaces(r)...)
+	sp = append(sp, c21CalloutSpaces(r)...)
+	return sp
+}
+
+// c21CalloutSpaces: histories in which network faults precede calls that overlap at ANY call-out of the client: one Client
+// (its writer/reader pools are shared by all its host clients, http and https); a prefix of calls that fail on the network
+// (write errors, connection resets); then a call with or without a request body inside one of whose call-outs - dial, k-th
+// connection write, first connection read after the k-th write, k-th body-stream read, k-th connection close - further
+// calls of the same Client start and finish; then further calls.
+func c21CalloutSpaces(r *vrt.R) []c21Space {
+	s, p := c21Target{"https", "hosta", ""}, c21Target{"http", "hosta", ""}
+	base := c21Case{Client: "Client", Hook: "Dial", Verify: "skip"}
+	type hk struct {
+		hook string
+		at   int
+	}
+	type reqShape struct {
+		t    c21Target
+		body string
+	}
+	shapes := func(bodies ...string) []reqShape {
+		var out []reqShape
+		for _, t := range []c21Target{s, p} {
+			for _, b := range bodies {
+				out = append(out, reqShape{t, b})
+			}
+		}
+		return out
+	}
+	hooksFor := func(body string, maxK int, withClose bool) []hk {
+		hs := []hk{{"", 0}}
+		for k := 1; k <= maxK; k++ {
+			hs = append(hs, hk{"write", k}, hk{"read", k})
+		}
+		if body == "stream" || body == "sized" {
+			for k := 1; k <= 3; k++ {
+				hs = append(hs, hk{"body", k})
+			}
+		}
+		if withClose {
+			hs = append(hs, hk{"close", 1})
+		}
+		return hs
+	}
+	type faultSym struct {
+		t     c21Target
+		body  string
+		fault string
+	}
+	// all sequences of 0..n fault symbols
+	prefixes := func(alpha []faultSym, n int) [][]c21Op {
+		out := [][]c21Op{nil}
+		for l := 1; l <= n; l++ {
+			dims := make([]int, l)
+			for i := range dims {
+				dims[i] = len(alpha)
+			}
+			seqx.Product(dims, -1, func(x []int) bool {
+				var ops []c21Op
+				for _, v := range x {
+					ops = append(ops, c21Op{Via: "Do", T: alpha[v].t, Body: alpha[v].body, Fault: alpha[v].fault})
+				}
+				out = append(out, ops)
+				return true
+			})
+		}
+		return out
+	}
+	maxK := vrt.Pick(r, 3, 4)
+	var alpha []faultSym
+	for _, t := range []c21Target{p, s} {
+		alpha = append(alpha, faultSym{t, "", "w1"}, faultSym{t, "", "r1"}, faultSym{t, "large", "w2"})
+	}
+	maxPre := vrt.Pick(r, 1, 2)
+	outers := shapes("", "large", "stream")
+	inner1 := shapes("", "large")
+	if r.Thorough() {
+		inner1 = shapes("", "large", "stream")
+	}
+	var inners [][]c21Op
+	for _, a := range inner1 {
+		inners = append(inners, []c21Op{{Via: "Do", T: a.t, Body: a.body}})
+	}
+	if r.Thorough() {
+		for _, a := range shapes("", "large") {
+			for _, b := range shapes("", "large") {
+				inners = append(inners, []c21Op{{Via: "Do", T: a.t, Body: a.body}, {Via: "Do", T: b.t, Body: b.body}})
+			}
+		}
+	}
+	suffixes := [][]c21Op{nil}
+	var sp []c21Space
+	sp = append(sp, c21Space{fmt.Sprintf("K7: one Client, faults then overlap at any call-out: [every sequence of 0..%d calls that fail on the network, over %d symbols: {http://hosta, https://hosta} x {GET with the 1st connection write failing (w1), GET with the first read after it failing (r1), POST large with the 2nd write failing (w2)}] ; "+
+		"one call over {http://hosta, https://hosta} x {GET, POST large body (several connection writes), POST chunked body stream} with, nested inside one of its call-outs {first dial, connection write #1..%d, first connection read after write #1..%d, body-stream read #1..3 (stream only)}, %s ; no further calls",
+		maxPre, len(alpha), maxK, maxK,
+		map[bool]string{false: "one call over {http://hosta, https://hosta} x {GET, POST large}", true: "one call over {http://hosta, https://hosta} x {GET, POST large, POST stream} or two calls over {http://hosta, https://hosta} x {GET, POST large}"}[r.Thorough()]),
+		func(yield func(*c21Case) bool) {
+			for _, pre := range prefixes(alpha, maxPre) {
+				for _, o := range outers {
+					for _, h := range hooksFor(o.body, maxK, false) {
+						for _, in := range inners {
+							for _, suf := range suffixes {
+								cs := base
+								cs.Ops = c21CloneOps(pre)
+								cs.Ops = append(cs.Ops, c21Op{Via: "Do", T: o.t, Body: o.body, Hook: h.hook, At: h.at, In: c21CloneOps(in)})
+								cs.Ops = append(cs.Ops, c21CloneOps(suf)...)
+								if !yield(&cs) {
+									return
+								}
+							}
+						}
+					}
+				}
+			}
+		}})
+	// the overlapped call itself fails on the network (so that it also closes its connection: call-out "close"), and body
+	// kinds small / sized
+	sp = append(sp, c21Space{"K7b: one Client: [nothing | GET http://hosta w1 | GET https://hosta w1] ; one call over {http://hosta, https://hosta} x {GET, POST small, POST large, POST stream, POST sized stream} x fault {none, w1, w2, r1} with, nested inside {first dial, write #1..2, read after write #1..2, body read #1..2 (streams), connection close #1}, one GET over {http://hosta, https://hosta} ; one further GET of the other scheme than the nested one",
+		func(yield func(*c21Case) bool) {
+			for _, pre := range [][]c21Op{nil, {{Via: "Do", T: p, Fault: "w1"}}, {{Via: "Do", T: s, Fault: "w1"}}} {
+				for _, o := range shapes("", "small", "large", "stream", "sized") {
+					for _, f := range []string{"", "w1", "w2", "r1"} {
+						for _, h := range hooksFor(o.body, 2, true) {
+							if h.hook == "body" && h.at > 2 {
+								continue
+							}
+							for _, in := range []c21Target{s, p} {
+								other := map[c21Target]c21Target{s: p, p: s}[in]
+								cs := base
+								cs.Ops = c21CloneOps(pre)
+								cs.Ops = append(cs.Ops, c21Op{Via: "Do", T: o.t, Body: o.body, Fault: f, Hook: h.hook, At: h.at, In: []c21Op{{Via: "Do", T: in}}}, c21Op{Via: "Do", T: other})
+								if !yield(&cs) {
+									return
+								}
+							}
+						}
+					}
+				}
+			}
+		}})
 	return sp
 }
 
@@ -1570,17 +2140,22 @@ func TestVerif_C21(t *testing.T) {
 		"Enumerated spaces, each completely: " + strings.Join(names, " || ") + ". " +
 		"Every request carries its URL's scheme/host/port in its path. Oracle from the per-connection logs after all server goroutines were joined: an https request is decoded only inside an established TLS session (Client: dialled as its own host:port, SNI = its host), its bytes never appear in clear on any dialled connection, raw bytes of a TLS connection start with 0x16 and contain no HTTP/1.1; an http request never arrives inside a TLS session; the SNI of every TLS session equals the host actually dialled, and a verifying client never completes a handshake with (nor delivers a request to) a peer that holds only another host's certificate; " +
 		"HostClient answers ErrHostClientRedirectToDifferentScheme for a URL whose scheme differs from IsTLS (directly and after redirects) and writes nothing for it; Client delivers every request exactly once with err=nil, and Client.m / Client.ms hold only host clients of their scheme. " +
-		"Overlapping calls (K6) are produced without a scheduler by re-entrancy: nested ops run on the calling goroutine inside the fake network's dial hook (before the connection is handed over) or inside the k-th net.Conn.Close made by CloseIdleConnections - the two places where the client calls out with no lock held - so calls start and finish while another call is between two of its steps (the LIFO-shaped subset of concurrent interleavings). " +
+		"Overlapping calls (K6, K7) are produced without a scheduler by re-entrancy: nested ops run on the calling goroutine inside a call-out of the client to the harness - the dial hook (before the connection is handed over), the k-th net.Conn.Write of the call on a dialled connection (TLS records included; before the bytes are taken), the first net.Conn.Read after its k-th write, the k-th Read of its request body stream, the k-th net.Conn.Close (of CloseIdleConnections, or of a failing call) - so calls start and finish while another call is between two of its steps, in particular between AcquireWriter and the last flush of its request (the LIFO-shaped subset of concurrent interleavings). " +
+		"Network faults belong to the history alphabet (K7): a call may have its k-th connection write, or the first read after it, fail (the connection is broken from then on); such a call may fail or be retried, everything else is judged as usual. Requests in K7 are GET or POST with a small / large (several connection writes) body or a chunked / sized body stream; every Do request names its URL in its request line, in an X-C21-Tag header and in every piece of its body. " +
+		"Additional oracle on bytes: whatever request line, header or body piece appears in clear on a dialled connection must belong to an http request (Client: for that address), whatever appears decrypted inside a TLS session must belong to an https request (Client: for that address and SNI); a delivered request carries exactly the body it was given; the client never waits for a response on a connection whose peer has not received a complete request (decided logically: both ends blocked reading, nothing in flight - the point where a real read deadline would expire). " +
+		"White box at every call-out: the writer and reader pool of the Client (shared by its http and https host clients) resp. of each HostClient never holds the same object twice (two requests in progress would share it); the harness takes the pooled objects out while the case goroutine may block and puts them back afterwards, so that sync.Pool hands out a pooled object whenever there is one, independent of the Go scheduler. " +
 		"White-box oracle after every CloseIdleConnections op and after the last op of every case: each idle-pool entry (HostClient.conns) of every HostClient involved is non-nil, distinct, holds a connection this HostClient dialled itself on the case's network to one of its own addresses, TLS-wrapped iff IsTLS, not closed by the client - i.e. the next request of that scheme can only be written to a connection made for it (a clientConn struct that was reset/handed to the process-wide free list while still pooled is reported as released-struct-still-pooled); a panicking client call is a violation. " +
 		"Non-trivial: the case had both a TLS session and a plaintext connection, or a HostClient refusal, or at least one op executed re-entrantly")
 	r.Assume("crypto/tls and net/http.ReadRequest on the fake server side",
 		"for HostClient/LBClient 'its own host' is the configured upstream address (the caller chose it); the URL host is only checked through Client",
 		"the harness pipe ignores deadlines; a 60 s watchdog turns a hang into a tool error, never into a verdict",
-		"re-entrant nesting reaches only overlaps in which the inner call starts and finishes inside one callback of the outer call; other interleavings of concurrent callers need the controlled scheduler (mc profile) and are not part of this check")
+		"re-entrant nesting reaches only overlaps in which the inner call starts and finishes inside one callback of the outer call; other interleavings of concurrent callers need the controlled scheduler (mc profile) and are not part of this check",
+		"sync.Pool.Get may return any object Put before: the harness resolves this choice as 'a pooled object whenever there is one' (see the rule), other resolutions are not explored")
 	W := 64
 	for si, s := range spaces {
 		var total int64
 		var tmu sync.Mutex
+		t0 := time.Now()
 		r.Par(W, func(w int) {
 			var ct c21Counters
 			i, mine := 0, 0
@@ -1606,7 +2181,7 @@ func TestVerif_C21(t *testing.T) {
 			total += int64(mine)
 			tmu.Unlock()
 		})
-		r.Set(fmt.Sprintf("c21_space_%d_cases", si), fmt.Sprintf("%d: %s", total, s.name))
+		r.Set(fmt.Sprintf("c21_space_%d_cases", si), fmt.Sprintf("%d (%.1f s, informational): %s", total, time.Since(t0).Seconds(), s.name))
 	}
 	r.Set("c21_largest_idle_pool_inspected", c21MaxIdle.Load())
 }
